@@ -81,11 +81,11 @@ def retry_undecided(pid, results, known, timeout):
     before it is allowed to count as failing: a loaded machine must not turn a proof into an alarm."""
     import concurrent.futures
     todo = []
-    expected = set((k["clause"], k.get("site", "")) for k in known.get("findings", []) if k["property"] == pid and k.get("status") == "open")
+    expected = set((k["clause"], k.get("site", "")) for k in known.get("findings", []) if k["property"] == pid and k.get("status") == "open" and k.get("clause"))
     for res in results:
         for f in res["functions"]:
             for o in f.get("obligations") or []:
-                if o.get("vacuity") or o["verdict"] in ("unsat", "sat"):
+                if o.get("vacuity") or o.get("cover") or o["verdict"] in ("unsat", "sat"):
                     continue
                 if (f["pkg"].replace("github.com/ozontech/file.d/", "") + "::" + o["clause"], o.get("src") or "") in expected:
                     continue  # open known finding: expected not to discharge
@@ -159,7 +159,7 @@ def classify(pid, results, baseline, known):
                 # failed obligation
                 matched = None
                 for k in open_known:
-                    if k["clause"] == clause_key(o) and k.get("site", "") == (o.get("src") or ""):
+                    if k.get("clause") == clause_key(o) and k.get("site", "") == (o.get("src") or ""):
                         matched = k
                         break
                 # an anchor of this function's contract was not found (the anchored statement was edited): ghost updates
@@ -399,6 +399,10 @@ def main():
         rc = 0
         for o, k in rep["known"]:
             print("KNOWN-FINDING: property=%s %s [%s @ %s]" % (pid, k["what"], o["clause"], o.get("src")))
+        # findings recorded by input only (no contract within reach states them): listed on every run, replayed in the thorough tier
+        rep["replay_known"] = [k for k in known.get("findings", []) if k["property"] == pid and k.get("status") == "open" and k.get("kind") == "replay"]
+        for k in rep["replay_known"]:
+            print("KNOWN-FINDING: property=%s %s [input: %s; replay %s %s]" % (pid, k["what"], k.get("input", ""), k.get("canary") or k.get("script"), k.get("test", "")))
         budget = [240.0 if tier == "quick" else 900.0]
         for o in rep["violations"]:
             conc = concretise(o, workdir, budget)
@@ -428,7 +432,7 @@ def main():
             print("NOTE property=%s coverage shrank: %d obligations generated, %d when the baseline was recorded (see UNDECIDED lines)" % (pid, n, n0))
         d = sum(1 for o in rep["obligations"] if o["verdict"] == "unsat")
         print("%s %s: %d/%d obligations discharged over %d functions, %d known findings, %d violations, %.1fs" % (
-            pid, tier, d, n, len(rep["functions"]), len(rep["known"]), len(rep["violations"]), time.time() - t0))
+            pid, tier, d, n, len(rep["functions"]), len(rep["known"]) + len(rep.get("replay_known", [])), len(rep["violations"]), time.time() - t0))
         return rc
     finally:
         if not args.keep:
@@ -483,6 +487,15 @@ def thorough_extras(pid, P, workdir, rep):
         extra["canaries"].append({"test": pat, "kind": "open-finding input still fails", "still_fails": not ok})
         if ok:
             print("NOTE property=%s the stored input of open finding %s no longer fails on the real code: the known-findings entry is stale" % (pid, pat))
+    for k in rep.get("replay_known", []):
+        if k.get("script"):
+            pr = subprocess.run([os.path.join(VERIF, k["script"]), REPO], stdout=subprocess.PIPE, stderr=subprocess.STDOUT, text=True)
+            ok = pr.returncode == 0
+        else:
+            ok, tail = run_canary(k["pkg"], k["canary"], k["test"], workdir)
+        extra["canaries"].append({"test": k.get("test") or k.get("script"), "kind": "open-finding input still fails", "still_fails": not ok})
+        if ok:
+            print("NOTE property=%s the stored input of open finding %s no longer fails on the real code: the known-findings entry is stale" % (pid, k.get("test") or k.get("script")))
     # 3. must-fail corpus: every mutant must make some baseline clause fail
     corpus = load_json(os.path.join(VERIF, "selftest", "mutants.json"), {}).get(pid, [])
     baseline = load_json(BASELINE, {})
@@ -597,7 +610,8 @@ def write_evidence(pid, P, tier, seed, t0, rep, fatal, results=None, extra=None)
         "functions_under_contract": rep["functions"],
         "backends": backends, "solver_time_s": round(solver_ms / 1000, 3),
         "abstracted": rep["abstractions"], "abstracted_count": n_abs,
-        "known_findings": [{"clause": o["clause"], "site": o.get("src"), "what": k["what"]} for o, k in rep["known"]],
+        "known_findings": [{"clause": o["clause"], "site": o.get("src"), "what": k["what"]} for o, k in rep["known"]] +
+                          [{"clause": None, "site": k.get("site"), "what": k["what"], "input": k.get("input"), "replay": k.get("canary") or k.get("script")} for k in rep.get("replay_known", [])],
         "undecided": [{"obligation": o["name"], "verdict": o["verdict"], "desc": o["desc"][:200]} for o in rep["undecided"]] + rep["errors"] + rep["drift"],
         "vacuity_failures": [o["name"] for o in rep["vacuity"]],
         "violating_obligations": [o["name"] for o in rep["violations"]],
